@@ -168,6 +168,24 @@ CHECKS += [
          technique="forking symbolic execution of the passes with a structural input-snapshot monitor on every solver-selected path"),
 ]
 
+CHECKS += [
+    dict(property_id="C72", category="proof", engine="z3 over Pauli-word actions",
+         text="For every graph of a stated family (all graphs on <=3 nodes, a subset on 4-5; digraphs on 2-3(4) nodes; networkx and rustworkx) the REAL qaoa "
+              "functions are called and the returned Hamiltonian's Pauli representation is turned into its action on |b> with one z3 Bool per wire; z3 "
+              "proves for ALL bitstrings at once: bit_driver, edge_driver (6 reward sets), maxcut == -#cut edges, max_independent_set / min_vertex_cover / "
+              "max_clique (constrained+unconstrained) == the documented building-block objective, recommended mixers == x / bit-flip mixers, xy_mixer and "
+              "bit_flip_mixer amplitudes, out_flow / net_flow constraints == documented closed forms == 4*violation penalties, loss_hamiltonian.",
+         note="Trusted base: z3; the Pauli-word action encoding (validated against qp.matrix on every replay); objectives written from the documented building blocks. Outside: max_weight_cycle/cycle_mixer as a whole, symbolic weights, larger graphs.",
+         technique="z3 validity queries over symbolic bitstrings on the Pauli representation returned by the real functions"),
+    dict(property_id="C28", category="proof", engine=E1,
+         text="Every closed-form Channel of ops/channel.py (amplitude/generalized/phase damping, depolarizing, bit/phase flip, reset error, PauliError on 10 "
+              "words incl. even-Y words) with symbolic strengths on the documented domain: sum K^dagger K == I (1e-7). Seven noisy circuits (incl. an idle "
+              "measured wire, a middle-wire channel on 3 wires, string labels) plus broadcast variants through the REAL default.mixed get_final_state/"
+              "measure_final_state on symbolic angles and strengths: rho == independent Kraus-sum evolution, Hermitian, trace 1, expval/probs == tr(rho O)/diagonal.",
+         note=PROOF_NOTE + " sqrt introduced by defining equations. Outside: positive semidefiniteness, QubitChannel, ThermalRelaxationError (exp, eigendecomposition), finite shots.",
+         technique="symbolic execution of Kraus operators and the default.mixed kernels on polynomial terms with sqrt atoms; z3 QF_NRA with 1e-7 tolerance"),
+]
+
 _NOT_BUILT = "claimed in DESIGN.md §4 but its solver-based check is not built yet in this tree"
 NOT_APPLICABLE_REASONS = {
     "C04": "equality/hash: Python hash() of concrete payloads and tolerance-based allclose relations; no exact relation a solver can decide",
